@@ -144,12 +144,18 @@ class CancelOracle(Monitor):
             self.dst_finished_delivered = True
             # (e) disposition
             got = w.dst_bytes()
+            if cond == 0 and fi[2][1] == 0:
+                self.success_reported = True
+            if cond != 0 and got is None and self.complete_before and self.success_reported and len(w.src_bytes) > 0:
+                # "an incomplete file is deleted": a file that was complete, and reported as delivered, is not incomplete
+                w.violate("C12.e_complete_file_deleted", f"cond={cond} delivery={fi[2][1]} status={fi[2][2]} dispo={c.dispo} step={rec.pre.step}", "")
             if cond != 0:
                 if c.dispo and not c.metadata_only and self.md_accepted:
                     if got is not None and got != w.src_bytes:
                         w.violate("C12.e_incomplete_file_kept", f"cond={cond} delivery={fi[2][1]} status={fi[2][2]}", f"len={len(got)} want={len(w.src_bytes)}")
                     elif got is None:
                         w.probe("C12.e_deleted")
+        self.complete_before = (not c.metadata_only) and w.dst_bytes() == w.src_bytes
         if not c.dispo and not c.metadata_only and self.md_accepted and w.dst_bytes() is None:
             w.violate("C12.e_deleted_without_disposition", f"step={rec.pre.step}->{rec.post.step}", "")
         if rec.inb_kind == "MD" and any(i[0] == "metadata_recv" for i in rec.inds) and w.dst_bytes() is not None:
@@ -171,6 +177,8 @@ class CancelOracle(Monitor):
                     w.violate("C12.d_finished_pdu", f"eof_cond={want} cond={cond} fault_location={floc} eof_at={step}", "")
 
     md_accepted = False
+    complete_before = False
+    success_reported = False
 
     def on_end(self, w) -> None:
         pass
